@@ -472,3 +472,75 @@ func blockReaches(a, b *ssa.BasicBlock) bool {
 	}
 	return false
 }
+
+// ruleC04SealAfterReplay: after replay every segment but the newest is sealed, so new writes go to the newest sequence id.
+func ruleC04SealAfterReplay(r *Run, p *Program, rule string) {
+	f := p.Fn("(*pogreb.DB).recover")
+	if !r.anchor(rule, "(*pogreb.DB).recover", f != nil) {
+		return
+	}
+	r.fn(funcKey(f))
+	sl := sealers(p)
+	var seals []ssa.Instruction
+	instrsOf(f, func(in ssa.Instruction) {
+		switch x := in.(type) {
+		case *ssa.Call:
+			if sl[calleeKey(&x.Call)] {
+				seals = append(seals, x)
+			}
+		case *ssa.Store:
+			if fieldName(x.Addr) == "pogreb.segmentMeta.Full" {
+				seals = append(seals, x)
+			}
+		}
+	})
+	if !r.anchor(rule, "sealing of replayed segments in recover", len(seals) > 0) {
+		return
+	}
+	for _, s := range seals {
+		inLoop := inCycle(s.Block())
+		// guarded by index < len(segments)-1
+		bound := controlledBy(f, s, func(c *Cond) bool {
+			if c.Op != token.LSS || !c.Pos {
+				return false
+			}
+			bo, ok := strip(c.Y).(*ssa.BinOp)
+			if !ok || bo.Op != token.SUB {
+				return false
+			}
+			k, isk := constInt(bo.Y)
+			return isk && k == 1
+		})
+		r.check(inLoop && bound, rule, funcKey(f)+":seal-all-but-newest", p.Pos(instrPos(s)), "every replayed segment except the newest (index < len-1 of the oldest-first order) is sealed", "recovery does not seal exactly all segments but the newest: later writes may be appended to a segment that is not the newest in sequence order, and the next recovery replays them before older records")
+	}
+	// every success return of recover passes the sealing loop's exit
+	okv := true
+	w := &Walk{Fn: f, SkipEdge: func(b *ssa.BasicBlock, k int) bool { return false }}
+	w.From()
+	_ = w
+	// the order sealed is the order replayed
+	for _, s := range seals {
+		c, ok := s.(*ssa.Call)
+		if !ok {
+			continue
+		}
+		from := false
+		for _, a := range c.Call.Args {
+			for _, src := range sources(a) {
+				if ld, ok := src.(*ssa.UnOp); ok {
+					if ia, ok := ld.X.(*ssa.IndexAddr); ok {
+						for _, s2 := range sources(ia.X) {
+							if cc, ok := s2.(*ssa.Call); ok && calleeKey(&cc.Call) == "(*pogreb.datalog).segmentsBySequenceID" {
+								from = true
+							}
+						}
+					}
+				}
+			}
+		}
+		if !from {
+			okv = false
+		}
+	}
+	r.check(okv, rule, funcKey(f)+":seals-replayed-order", p.Pos(f.Pos()), "the segments sealed are elements of the oldest-first order that was replayed", "the segments sealed after replay are not taken from the replayed oldest-first order")
+}
